@@ -23,8 +23,9 @@ Apply(d, P, c) ==
     [] c.op = "req"     -> LET x == Req(d, P, c.st) IN [S |-> x.S, ret |-> x.ret, offers |-> << >>]
     [] c.op = "query"   -> LET x == Query(d, P) IN [S |-> x.S, ret |-> "ok", offers |-> x.offers]
     [] c.op = "start"   -> LET x == UTS(d, P, c.task, c.route,
-                                        IF c.item >= 0 THEN ItemEv(c.item, "running", <<2>>, <<2>>)
-                                        ELSE ActionEv("running", <<2>>))
+                                        \* (a provider may acknowledge with `requested` / `delayed` before `running`)
+                                        IF c.item >= 0 THEN ItemEv(c.item, c.st, <<2>>, <<2>>)
+                                        ELSE ActionEv(c.st, <<2>>))
                            IN [S |-> x.S, ret |-> x.ret, offers |-> << >>]
     [] c.op = "report"  -> LET x == UTS(d, P, c.task, c.route,
                                         IF c.item >= 0 THEN ItemEv(c.item, c.st, c.res, c.acc)
